@@ -22,6 +22,7 @@ type seed struct {
 }
 
 var seeds = []seed{
+	{"AddMany guards its first element with a nil test instead of a length test", "IX0", "roaring.go", "func (rb *Bitmap) AddMany(dat []uint32) {\n\tif len(dat) == 0 {\n", "func (rb *Bitmap) AddMany(dat []uint32) {\n\tif dat == nil {\n", "Bitmap).AddMany|fixed position of dat"},
 	{"roaring64 Select cuts its running index to 32 bits before comparing it with the bucket size", "U12", "roaring64/roaring64.go", "\t\tif bitmapSize := c.GetCardinality(); remaining >= bitmapSize {\n\t\t\tremaining -= bitmapSize\n\t\t} else {\n", "\t\tif _, err := c.Select(uint32(remaining)); err != nil {\n\t\t\tremaining -= c.GetCardinality()\n\t\t} else {\n", "Select|value cut to 32 bits"},
 	{"previousAbsentValue inverts the word after shifting it up", "U4", "bitmapcontainer.go", "\tw := ^bc.bitmap[x] << (63 - uint(target%64))\n", "\tw := ^(bc.bitmap[x] << (63 - uint(target%64)))\n", "previousAbsentValue|complement of a shifted word"},
 	{"RemoveRange lets an empty range ending at 0 through to end-1", "U11", "roaring.go", "func (rb *Bitmap) RemoveRange(rangeStart, rangeEnd uint64) {\n\tif rangeStart >= rangeEnd {\n", "func (rb *Bitmap) RemoveRange(rangeStart, rangeEnd uint64) {\n\tif rangeStart > rangeEnd {\n", "Bitmap).RemoveRange|<uint64> - 1"},
